@@ -692,4 +692,82 @@ theorem sameEnt_reframe_right {w w' : World} {j : Nat} (h : SameEnt w w' j) (o :
 theorem sameEnt_reframe_left {w w' : World} {j : Nat} (o : ObsMgr) (lg : List LogEv) (lk : Lock)
     (h : SameEnt (w.reframe o lg lk) w' j) : SameEnt w w' j := h
 
+/-! ### running a framed function on a world with another frame -/
+
+namespace World
+
+/-- `getBatchTables` neither reads nor writes observers, log and lock -/
+theorem frames_getBatchTables (fo : FilterObj) (extra : List RelID) :
+    Frames (getBatchTables fo extra) := by
+  intro w o lg lk
+  unfold getBatchTables
+  simp only []
+  have h1 : ∀ id, (w.reframe o lg lk).cacheEntry? id = w.cacheEntry? id := fun _ => rfl
+  have h2 : ∀ f r, (w.reframe o lg lk).getCacheTables f r = w.getCacheTables f r := fun _ _ => rfl
+  have h3 : ∀ t, (w.reframe o lg lk).tbl t = w.tbl t := fun _ => rfl
+  cases fo.cache with
+  | none =>
+    simp only [h2]
+    cases w.getCacheTables fo.filter (effRels fo extra) <;> rfl
+  | some id =>
+    simp only [h1]
+    cases w.cacheEntry? id with
+    | none => rfl
+    | some ce =>
+      simp only [h3]
+      split <;> rfl
+
+/-- a framed function that succeeds on a reframed world succeeds on the world itself, with the
+    same result; the final state is the reframed one with the original frame put back -/
+theorem Frames.of_reframe_ok {α : Type} {m : W α} (h : Frames m) {w : World} {o : ObsMgr}
+    {lg : List LogEv} {lk : Lock} {a : α} {w1 : World} (hm : m (w.reframe o lg lk) = .ok a w1) :
+    m w = .ok a (w1.reframe w.obs w.log w.locks) ∧ w1 = (w1.reframe w.obs w.log w.locks).reframe o lg lk := by
+  have hf := h w o lg lk
+  have hs := h.state_frame w
+  rw [hm] at hf
+  cases hr : m w with
+  | ok a' s =>
+    rw [hr] at hf hs
+    simp only [Res.mapS_ok] at hf
+    simp only [Res.state] at hs
+    injection hf with h1 h2
+    subst h1 h2
+    obtain ⟨e1, e2, e3⟩ := hs
+    have : (s.reframe o lg lk).reframe w.obs w.log w.locks = s := by
+      rw [reframe_reframe, ← e1, ← e2, ← e3]; rfl
+    rw [this]
+    exact ⟨rfl, rfl⟩
+  | panic k s =>
+    rw [hr] at hf
+    simp only [Res.mapS_panic] at hf
+    cases hf
+
+/-- a framed function that panics on a reframed world panics on the world itself, with the same
+    class -/
+theorem Frames.of_reframe_panic {α : Type} {m : W α} (h : Frames m) {w : World} {o : ObsMgr}
+    {lg : List LogEv} {lk : Lock} {k : PanicKind} {w1 : World}
+    (hm : m (w.reframe o lg lk) = .panic k w1) :
+    m w = .panic k (w1.reframe w.obs w.log w.locks) ∧ w1 = (w1.reframe w.obs w.log w.locks).reframe o lg lk := by
+  have hf := h w o lg lk
+  have hs := h.state_frame w
+  rw [hm] at hf
+  cases hr : m w with
+  | panic k' s =>
+    rw [hr] at hf hs
+    simp only [Res.mapS_panic] at hf
+    simp only [Res.state] at hs
+    injection hf with h1 h2
+    subst h1 h2
+    obtain ⟨e1, e2, e3⟩ := hs
+    have : (s.reframe o lg lk).reframe w.obs w.log w.locks = s := by
+      rw [reframe_reframe, ← e1, ← e2, ← e3]; rfl
+    rw [this]
+    exact ⟨rfl, rfl⟩
+  | ok a s =>
+    rw [hr] at hf
+    simp only [Res.mapS_ok] at hf
+    cases hf
+
+end World
+
 end Ark
